@@ -27,6 +27,13 @@ def main():
     sid, prop, patch, demo, checks = sys.argv[1:6]
     tier = sys.argv[6] if len(sys.argv) > 6 else "quick"
     meta = {"seed": sid, "property": prop, "checks_run": checks.split(","), "tier": tier, "at": time.strftime("%Y-%m-%d %H:%M:%S")}
+    try:
+        desc = json.load(open("/verif/tools/seed_desc.json")).get(sid, {})
+        meta["what"] = desc.get("what", "")
+        meta["needs"] = desc.get("needs", "")
+    except Exception:
+        pass
+    meta["source"] = "written by an independent sub-agent that saw only the property text and a scratch worktree"
     global REPO, OUT
     if os.environ.get("SEED_IN_PLACE") != "1":
         # evaluate in a scratch worktree of /repo's HEAD so that /repo itself is never touched
